@@ -1,6 +1,6 @@
 """Maintainer tool: quick / thorough corpus sizes per property (for DESIGN.md 10.2)."""
 import glob, json
-for f in sorted(glob.glob('/verif/corpus/*.json')):
+for f in sorted(glob.glob('/verif/corpus/C*.json')):
     c = json.load(open(f))
     q = sum(1 for x in c['cases'] if x.get('quick'))
     print(c['property'], f"{q} / {len(c['cases'])}", c['stats'], 'excluded', len(c['excluded_known_defect_duplicates']))
